@@ -38,7 +38,8 @@ type mutHandler struct {
 	batches  int
 	multi    int // batches with two or more events of one key
 	restored bool
-	afterRes int // handler invocations after a restore that were supplied non-empty state
+	afterRes int  // handler invocations after a restore that were supplied non-empty state
+	perEvent bool // one KeyResult per event (as the repository's own handlers answer) instead of one per key
 }
 
 func (h *mutHandler) KeyEventBatch(ctx context.Context, events [][]byte) ([][]*handlerpb.KeyedEvent, error) {
@@ -100,6 +101,7 @@ func (h *mutHandler) ProcessEventBatch(ctx context.Context, req *handlerpb.Proce
 	results := map[string]*handlerpb.KeyResult{}
 	var order []string
 	perKey := map[string]int{}
+	var perEvent []*handlerpb.KeyResult // the key results in the order of their first (or only) event
 	for _, ev := range req.Events {
 		ke, ok := ev.Event.(*handlerpb.Event_KeyedEvent)
 		if !ok {
@@ -114,10 +116,11 @@ func (h *mutHandler) ProcessEventBatch(ctx context.Context, req *handlerpb.Proce
 			h.multi++
 		}
 		r := results[k]
-		if r == nil {
+		if r == nil || h.perEvent {
 			r = &handlerpb.KeyResult{Key: []byte(k)}
 			results[k] = r
 			order = append(order, k)
+			perEvent = append(perEvent, r)
 		}
 		// spec: P|ns|entry|value or D|ns|entry
 		f := strings.Split(spec, "|")
@@ -149,9 +152,8 @@ func (h *mutHandler) ProcessEventBatch(ctx context.Context, req *handlerpb.Proce
 		nsm.Mutations = append(nsm.Mutations, mut)
 	}
 	resp := &handlerpb.ProcessEventBatchResponse{}
-	for _, k := range order {
-		resp.KeyResults = append(resp.KeyResults, results[k])
-	}
+	_ = order
+	resp.KeyResults = perEvent
 	return resp, nil
 }
 
@@ -175,7 +177,8 @@ func operatorBody(c *mc.Ctx) {
 		shim.SetGlobalTune("L0Trigger", 2)
 		defer shim.ClearGlobalTune()
 	}
-	c.Op("[event batch size %d, memtable %d bytes]", batch, mem)
+	perEvent := batch > 1 && c.Choose(2) == 1
+	c.Op("[event batch size %d, memtable %d bytes, key results per %s]", batch, mem, map[bool]string{true: "event", false: "key"}[perEvent])
 	execSeq++
 	base := fmt.Sprintf("/x%d", execSeq)
 	root := dkvh.NewFS()
@@ -185,7 +188,7 @@ func operatorBody(c *mc.Ctx) {
 	defer storage.VerifRegisterFS("memory://"+base, nil)
 
 	dkv.VerifResetQueues() // abandoned executions must not leave the process-wide task queues occupied
-	h := &mutHandler{shadow: map[string]map[string]map[string]string{}}
+	h := &mutHandler{shadow: map[string]map[string]map[string]string{}, perEvent: perEvent}
 	var errs []string
 	rewrites := 0
 	touched := map[string]int{}
